@@ -292,6 +292,7 @@ Section Proofs.
     destruct ex; [fa|].
     assert (Hs1 : hash_ok (if inc then mb_del_node s owner inner else s)).
     { destruct inc; [apply hash_ok_mb_del|]; fa. }
+    destruct (aget path (nreqs (if inc then mb_del_node s owner inner else s))); [fa|].
     destruct (negb (beq parent zero32)).
     - destruct (bump_deps _ pp 1) as [s2|] eqn:Eb; [|fa].
       apply hash_ok_schedule_node; [reflexivity|]. eapply hash_ok_bump; eauto.
@@ -439,11 +440,13 @@ Section Proofs.
     apply Forall_put; [simpl; exact Hd|exact C].
   Qed.
 
-  Lemma hash_ok_schedule_all : forall reqs s,
-    Forall (fun pr => nr_data (snd pr) = None) reqs -> hash_ok s -> hash_ok (schedule_all s reqs).
+  Lemma hash_ok_schedule_all : forall reqs s s',
+    Forall (fun pr => nr_data (snd pr) = None) reqs -> hash_ok s -> schedule_all s reqs = Some s' -> hash_ok s'.
   Proof.
-    induction reqs as [|[p r] rest IH]; intros s Hf Hs; cbn [schedule_all]; [fa|].
-    inversion Hf; subst. apply IH; [fa|]. apply hash_ok_schedule_node; fa.
+    induction reqs as [|[p r] rest IH]; intros s s' Hf Hs E; cbn [schedule_all] in E.
+    - inversion E; subst. exact Hs.
+    - inversion Hf; subst. destruct (aget p (nreqs s)); [discriminate|].
+      eapply IH; [eassumption| |exact E]. apply hash_ok_schedule_node; assumption.
   Qed.
 
   (* ProcessNode on a blob that has the hash of the request it is delivered for *)
@@ -468,12 +471,12 @@ Section Proofs.
     destruct (aget path (nreqs s2)) as [r2|] eqn:Er2; [|fa].
     destruct (Nat.eqb (length reqs) 0 && Z.eqb (nr_deps r2) 0).
     - apply hash_ok_commit_node_request. fa.
-    - simpl. apply hash_ok_schedule_all.
-      + apply Forall_rev. fa.
-      + destruct Hs2 as [S0 D0 A B C]. constructor; ssimpl; auto.
-        intros q r' b. rewrite aget_aput. destruct (beq q path) eqn:Eq.
-        * apply beq_eq in Eq. subst q. intros X; inversion X; subst; simpl. intros D. eapply A; eauto.
-        * apply A.
+    - match goal with |- context [schedule_all ?a ?b] => destruct (schedule_all a b) as [s3|] eqn:Esa end; [|fa].
+      cbn [fst]. eapply hash_ok_schedule_all; [apply Forall_rev; eassumption| |exact Esa].
+      destruct Hs2 as [S0 D0 A B C]. constructor; ssimpl; auto.
+      intros q r' b. rewrite aget_aput. destruct (beq q path) eqn:Eq.
+      + apply beq_eq in Eq. subst q. intros X; inversion X; subst; simpl. intros D. eapply A; eauto.
+      + apply A.
   Qed.
 
   Lemma hash_ok_missing_go : forall q max count s ns cs,
